@@ -9,11 +9,13 @@ import VaxisModel.Lemmas.ParserParams
 import VaxisModel.Lemmas.Parser
 import VaxisModel.Lemmas.ParserAbs
 import VaxisModel.Lemmas.ParserDcs
+import VaxisModel.Lemmas.ParserText
 
 namespace VaxisModel.Props.C02
 open VaxisModel.Model.ParserTable VaxisModel.Model.Parser
 open VaxisModel.Lemmas.ParserConform VaxisModel.Lemmas.ParserParams VaxisModel.Lemmas.Parser
-open VaxisModel.Lemmas.ParserAbs VaxisModel.Lemmas.ParserDcs
+open VaxisModel.Lemmas.ParserAbs VaxisModel.Lemmas.ParserDcs VaxisModel.Lemmas.ParserText
+open VaxisModel.Model.ParserIO
 
 /-! ## The table -/
 
@@ -361,5 +363,44 @@ theorem dcs_roundtrip (s : PState) (he : s.exit = none) (hd : s.dcs = {}) (priv 
     simp only []
     rw [dcs_tail _ (Or.inr rfl) (by rfl) (by exact hd) ps inters final data hok hi hf1 hf2 hdata hne]
     simp
+
+/-- **Text conservation through the reading side, printable ASCII.**  For every way of splitting
+    the text into reads and *every* cluster oracle (whatever uniseg reports — no hypothesis on it),
+    the parser with bufio's fill loop, `readRune` and `print`'s look-ahead/unread delivers only
+    Prints followed by the end marker; no grapheme is empty and the graphemes concatenate to the
+    input: nothing lost, duplicated, altered or reordered. -/
+theorem text_conserved_ascii (clusterAt : Nat → Nat) (chunks : List (List Nat))
+    (h : ∀ c ∈ chunks, ∀ b ∈ c, 0x20 ≤ b ∧ b < 0x80) :
+    ∃ gs : List (List Nat), runChunks handTable clusterAt chunks = gs.map Item.print ++ [.seq .eof] ∧
+      gs.flatten = chunks.flatten ∧ ∀ g ∈ gs, g ≠ [] := by
+  have hflat : (chunks.filter (!·.isEmpty)).flatten = chunks.flatten := by
+    induction chunks with
+    | nil => rfl
+    | cons c cs ih =>
+      have := ih (fun c' hc' => h c' (by simp [hc']))
+      cases c with
+      | nil => simpa [List.filter] using this
+      | cons b r => simp [List.filter, this]
+  have ha : Ascii (bytesOf { buf := [], chunks := chunks.filter (!·.isEmpty) }) := by
+    intro b hb
+    simp only [bytesOf, List.nil_append, hflat, List.mem_flatten] at hb
+    obtain ⟨c, hc, hbc⟩ := hb
+    exact h c hc b hbc
+  obtain ⟨gs, h1, h2, h3⟩ := runLoop_ascii clusterAt
+    (({ buf := [], chunks := chunks.filter (!·.isEmpty) } : Rd).remaining + 2) PState.init rfl rfl
+    { buf := [], chunks := chunks.filter (!·.isEmpty) } ha (by rw [remaining_eq]; omega)
+  refine ⟨gs, h1, ?_, h3⟩
+  rw [h2]; simp [bytesOf, hflat]
+
+/-- **Chunk independence (printable ASCII)**: two ways of splitting the same text into reads, under
+    any two cluster oracles, deliver the same text once adjacent Prints are merged. -/
+theorem chunk_independent_ascii (cl1 cl2 : Nat → Nat) (c1 c2 : List (List Nat)) (hsame : c1.flatten = c2.flatten)
+    (h1 : ∀ c ∈ c1, ∀ b ∈ c, 0x20 ≤ b ∧ b < 0x80) (h2 : ∀ c ∈ c2, ∀ b ∈ c, 0x20 ≤ b ∧ b < 0x80) :
+    ∃ g1 g2 : List (List Nat),
+      runChunks handTable cl1 c1 = g1.map Item.print ++ [.seq .eof] ∧
+      runChunks handTable cl2 c2 = g2.map Item.print ++ [.seq .eof] ∧ g1.flatten = g2.flatten := by
+  obtain ⟨g1, a1, a2, _⟩ := text_conserved_ascii cl1 c1 h1
+  obtain ⟨g2, b1, b2, _⟩ := text_conserved_ascii cl2 c2 h2
+  exact ⟨g1, g2, a1, b1, by rw [a2, b2, hsame]⟩
 
 end VaxisModel.Props.C02
